@@ -165,18 +165,22 @@ def run_script(sc, max_loops=60000):
     peers = {}
     for devid in sc["peers"]:
         st = net.add_stack(devid, max_apdu=128)
-        st.server_mode = "silent" if devid in sc.get("silent", []) else "echo"
+        st.server_mode = "silent" if devid in sc.get("silent", []) else ("slow-echo" if devid in sc.get("slow", []) else "echo")
         st.response_payload = pattern(12, devid)
         peers[devid] = st
     t0 = net.vt.now
     bg = []
     sent = []
     serial = [0]
+    expect = []
 
-    def submit(devid):
+    def submit(devid, big=False):
         serial[0] += 1
         sent.append((devid, net.vt.now - t0))
-        a.send_cpt(peers[devid], pattern(8, devid) + bytes([serial[0] & 255, serial[0] >> 8]))
+        cannot_segment = sc.get("a", {}).get("seg", "segmentedBoth") not in ("segmentedBoth", "segmentedTransmit")
+        expect.append((devid, "abort" if (devid in sc.get("silent", []) or (big and cannot_segment)) else "ack"))
+        body = pattern(400 if big else 8, devid) + bytes([serial[0] & 255, serial[0] >> 8])
+        a.send_cpt(peers[devid], body)
     chain = list(sc.get("chain", []))      # requests issued from inside IOCB completion callbacks, in order
     if chain and sc.get("iocb"):
         orig_done = a._iocb_done
@@ -189,6 +193,10 @@ def run_script(sc, max_loops=60000):
     for op in sc["script"]:
         if op[0] == "req":
             submit(op[1])
+        elif op[0] == "reqbig":
+            submit(op[1], big=True)      # needs segmentation: ends at once in a local abort when the client cannot segment
+        elif op[0] == "unconf":
+            a.send_unconfirmed(peers[op[1]])
         elif op[0] == "bg":
             t = FunctionTask(lambda: None)
             t.install_task(when=net.vt.now + op[1])
@@ -209,7 +217,8 @@ def run_script(sc, max_loops=60000):
             "residue": {"a": a.residue(), "heap": len(net.vt.pending())},
             "iocb": [{k: v for k, v in e.items() if k != "iocb"} for e in a.iocb_events],
             "acks": [(c[3], c[4]) for c in a.confirmations if c[1] == "ack"],
-            "bound": (a.device.numberOfApduRetries + 1) * a.device.apduTimeout / 1000.0 + 0.5}
+            "expect": expect,
+            "bound": (a.device.numberOfApduRetries + 1) * a.device.apduTimeout / 1000.0 + 0.5 + (1.0 if sc.get("slow") else 0.0)}
 
 
 def check_script(sc, res):
@@ -236,6 +245,15 @@ def check_script(sc, res):
             if tc - start > res["bound"]:
                 out.append(("time-bound", "request to %s submitted at %.1f s (started %.1f s) got its outcome (%s) at %.1f s; bound %.1f s" % (
                     devid, ts, start, kind, tc, res["bound"])))
+    # no frame is lost in these scenarios: a request to a peer that answers must be ACKNOWLEDGED (an abort
+    # after silence is the right outcome only for a silent peer or a request the client cannot send)
+    import collections
+    want = collections.Counter(res.get("expect", []))
+    got_k = collections.Counter((str(src), kind) for _t, kind, _inv, src in res["conf"])
+    for (devid, kind), n_ in want.items():
+        if got_k.get((str(devid), kind), 0) < n_:
+            out.append(("wrong-outcome", "%d request(s) to %s should end in %s; outcomes from that peer: %r" % (
+                n_, devid, kind, sorted(k for (d, k) in got_k.elements() if d == str(devid)))))
     r = res["residue"]
     if r["a"]["client"] or r["a"]["server"] or r["a"].get("queues"):
         out.append(("residue-transaction", "transactions left: %r" % (r,)))
